@@ -53,6 +53,10 @@ class Ctx:
                               max_steps=self.knobs.get('max_steps', 3_000_000),
                               max_time=self.knobs.get('max_time', 3600.0),
                               max_no_progress=self.knobs.get('max_no_progress', 400_000),
+                              pct=self.knobs.get('pct', 0),
+                              pct_horizon=self.knobs.get('pct_horizon', 20000),
+                              p_starve=self.knobs.get('p_starve', 0.0),
+                              starve_len=self.knobs.get('starve_len', 200),
                               keep_log=keep_log,
                               jitter_rng=random.Random(H(self.seed, 'jitter')))
         from world.faults import Faults
@@ -172,6 +176,7 @@ def execute_plan(check, plan, keep_log=False):
         'steps': sim.steps,
         'switches': sim.switches,
         'preemptions': sim.preemptions,
+        'starvations': getattr(sim, 'starvations', 0),
         'stalls': sim.stalls,
         'threads': len(sim.threads),
         'wall': round(time.time() - t0, 4),
